@@ -164,9 +164,10 @@ def Check.reason : Check → Nat
 /-- serialized length: 4 + 8 + 8 + 32 + 32 + (2 + Σ (3 + |label|)) + 64 -/
 def serializedLen (names : List Name) : Nat := 150 + (names.map fun n => n.label.length + 3).sum
 
-/-- `IDChunk.WriteTo` / `Name.WriteTo` succeed -/
+/-- `IDChunk.WriteTo` / `Name.WriteTo` succeed (a 253-byte label would need a block size of 256, which
+does not fit its length byte — finding F26, repaired) -/
 def namesOK (names : List Name) : Bool :=
-  decide (2 + (names.map fun n => n.label.length + 3).sum ≤ 512) && names.all fun n => decide (n.label.length ≤ 253)
+  decide (2 + (names.map fun n => n.label.length + 3).sum ≤ 512) && names.all fun n => decide (n.label.length ≤ 252)
 
 /-- `issue(parent, child, certType, issuedAt, duration)`; `hasKey`: the parent's private key was
 provided; `fp`, `tbs`: the identities SHA3 and the serialization give the new certificate;
